@@ -26,7 +26,7 @@ func init() { sim.Register(c18{}) }
 func (c18) ID() string    { return "C18" }
 func (c18) Level() string { return "exploration" }
 func (c18) Rule() string {
-	return "the library's only source of nondeterminism (the process-global x/exp/rand source behind gonum's distuv) is pinned through its seed seam, so one run seed is one exactly repeatable sample. A run is a history of 50-400 calls to the 7 initializers and RandU / RandN from 1-3 clients in a scheduler-chosen order, with random shapes (rank 0-4), random valid parameters / fan values and nil configs; 1-3 focus configurations are drawn until their pool holds >= 20000 elements. Deterministic checks on every call (shape, tracking, support with the documented bound, Full constant, fresh tensors); statistical checks per full pool at 7 standard errors of the configured distribution (mean, variance, Kolmogorov-Smirnov distance <= 4.5/sqrt(n), lag-1 autocorrelation in row-major order, correlation between same positions of consecutive calls). Non-trivial: a run in which >= 1 pool reached the threshold. Distinct: hash of (kind, parameter bucket) of the full pools and the call-kind sequence."
+	return "the library's only source of nondeterminism (the process-global x/exp/rand source behind gonum's distuv) is pinned through its seed seam, so one run seed is one exactly repeatable sample. A run is a history of 50-400 calls to the 7 initializers and RandU / RandN from 1-3 clients in a scheduler-chosen order, with random shapes (rank 0-4), random valid parameters / fan values and nil configs; 1-3 focus configurations are drawn until their pool holds >= 20000 elements. Deterministic checks on every call (shape, tracking, support with the documented bound, Full constant, fresh tensors); statistical checks per full pool at 7 standard errors of the configured distribution (mean, variance, Kolmogorov-Smirnov distance <= 4.5/sqrt(n), lag-1 autocorrelation in row-major order, correlation between same positions of consecutive calls). Non-trivial: a run in which >= 1 pool reached the threshold. Distinct: hash of (kind, parameter bucket) of the full pools and the call-kind sequence. Also: one initializer object and one shape slice per configuration / rank reused for all calls, rejected calls between the draws, a result that is the very object handed out earlier, rare runs of 1200-3000 small calls."
 }
 func (c18) Assumptions() []string {
 	return []string{
@@ -38,7 +38,7 @@ func (c18) Assumptions() []string {
 }
 func (c18) Extra() map[string]any {
 	e := baseExtra()
-	e["fault_kinds"] = []string{"alias-scribble on the configuration struct between constructing an initializer and calling Init", "reseed (seam self-test only)"}
+	e["fault_kinds"] = []string{"alias-scribble on the configuration struct between constructing an initializer and calling Init", "reseed (seam self-test only)", "invalid-call (draws with impossible shapes or parameters, rejected optimizer steps and tensor operations between the draws)", "one initializer object / one shape slice reused for many calls"}
 	return e
 }
 
